@@ -10,7 +10,7 @@ TB = ("Coq 8.16.1 kernel; hand-written Gallina model tied to /repo by the corres
 
 CLAIMED = {
  "C13": dict(
-   text="28 theorems about a Gallina model of quantum/tk.py (to_tk main loop with the qubit / bit register lists, "
+   text="35 theorems about a Gallina model of quantum/tk.py (to_tk main loop with the qubit / bit register lists, "
         "prepare_qubits / prepare_bits, measure_qubits, swaps, add_gate, post-selection dict and post-processing; from_tk "
         "with make_units_adjacent): for every prefix of every export run the qubit register list is the injective, "
         "increasing image of the live qubit wires (register invariant), the command list equals the relabelled "
@@ -24,13 +24,16 @@ CLAIMED = {
         "the post-selection witness (finding F41); refutation witnesses for the pinned defects and soundness of the "
         "repairs on them.  Partial: the distribution statement itself (simulate . to_tk = mixed evaluation) needs "
         "matrix semantics and is decided per case by the numerical oracles (own exact tket simulator vs "
-        "eval(mixed=True), mock backend, round trip); bit routing of the import and the round-trip statement are not "
-        "proved.  Tie to /repo: exact comparison of exported tket circuits modulo commutation on disjoint units and "
+        "eval(mixed=True), mock backend, round trip); IMPORT BIT ROUTING is proved (every bit wire and every Bra of the "
+        "imported circuit carries the outcome of the tket Measure that writes that bit, outside the F41 / F42 "
+        "triggers, with the renumbering of deferred post-selections made explicit; the old statement is refuted); the "
+        "round trip is proved conditionally (hypotheses on the exported circuit assumed, checked on every generated "
+        "case).  Tie to /repo: exact comparison of exported tket circuits modulo commutation on disjoint units and "
         "of imported diagrams (incl. post-selected tket circuits).",
    design="6/C13", engine="coq-tk",
    technique="Coq proof (register / bit invariants, trace refinement, bit routing, import trace; induction over layers and commands) + exact correspondence vs pytket export/import + simulation oracles"),
  "C12": dict(
-   text="22 theorems over the abstract *-ring (executed in Cyc32) about a Gallina model of cqmap.CQMap and cqmap.Functor: "
+   text="33 theorems over the abstract *-ring (executed in Cyc32) about a Gallina model of cqmap.CQMap and cqmap.Functor: "
         "every well-typed pure circuit evaluates mixed to the doubled map conj(U) (x) U of its pure evaluation (per box and "
         "through CQMap.tensor); CQMap.measure has the Born closed form for every n, measuring a doubled state gives "
         "conj(a) a; discard is the trace / marginal; Encode = Measure-dagger and MixedState = Discard-dagger for all flag "
@@ -38,7 +41,12 @@ CLAIMED = {
         "discard law, holds for unitaries (C11), preparations, stochastic classical gates, Copy, destructive Measure, "
         "Discard, constructive Encode and swaps, is closed under tensor and then, hence for every well-typed circuit of "
         "such boxes, and get_counts entries sum to 1.  The swap network of CQMap.tensor as coded equals the Kronecker "
-        "closed form on every sector, for all maps and type shapes.  Partial: non-destructive Measure trace preservation and non-negativity by oracle.  Tie to /repo: "
+        "closed form on every sector, for all maps and type shapes; non-destructive Measure satisfies the discard law and "
+        "the closure theorem holds for the semantic class of trace-preserving boxes (get_counts sums to 1 for any domain "
+        "and codomain); Encode(constructive=False), Encode(reset_bits=True) and MixedState are proved NOT trace "
+        "preserving; init_and_discard and the dagger preserve well-typedness; measure() of a pure circuit, with or "
+        "without a final Measure, is the Born distribution of its pure evaluation.  Partial (superseded items kept for "
+        "the record): non-destructive Measure trace preservation and non-negativity by oracle.  Tie to /repo: "
         "exact Cyc32 vs eval(mixed=True) at 1e-9, doubling / Born / counts / adjointness oracles.",
    design="6/C12", engine="coq-cq",
    technique="Coq proof (abstract *-ring, induction on layers) + correspondence vs mixed evaluation + Born-rule oracles"),
